@@ -394,8 +394,15 @@ class Harness:
         build.cc([HSRC] + objs, self.exe, objdir, extra=build.LINK_LIBS + ["-DLIBMCOUNT"])
         self.n = 0
 
-    def run_many(self, scripts):
+    def run_many(self, scripts, batch=400):
         """scripts: list of op lists -> (flags, list of dict(digests, recs, crashed, why))"""
+        if len(scripts) > batch:
+            flags, out = {}, []
+            for k in range(0, len(scripts), batch):
+                f, o = self.run_many(scripts[k:k + batch], batch)
+                flags = flags or f
+                out += o
+            return flags, out
         self.n += 1
         d = os.path.join(self.ctx.scratch, "c11d%d" % (self.n % 4))
         shutil.rmtree(d, ignore_errors=True)
@@ -962,7 +969,7 @@ def run_e2e(ctx, objdir):
     from concurrent.futures import ThreadPoolExecutor
     rng = ctx.rng
     cases = []
-    for i in range(ctx.n(14, 220)):
+    for i in range(ctx.n(24, 260)):
         lang = "c" if i % 5 < 3 else "c++"
         g = E2EGen(rng, lang)
         src = g.source()
@@ -1020,6 +1027,12 @@ def run_e2e(ctx, objdir):
     wprobs = {}
     for w in witnesses:
         probs, stream = judge_e2e(wres[w["name"]])
+        if w["name"] == "w_fentry" and not probs:
+            # main(0) t1(1) t2(2): the destructor of t2's guard runs in t2's cleanup pad, true depth 3
+            for ents in wres[w["name"]].get("replay", {}).values():
+                ds = [d for n, d in ents if n.endswith("~G")]
+                if ds and ds != [3]:
+                    probs.append(("depth", "G::~G() called from t2's cleanup pad is shown at depth %s, true depth 3" % ds))
         wprobs[w["name"]] = probs
         if w["name"] == "w_oldjb" and stream:
             streams.append((w, stream))
@@ -1122,7 +1135,8 @@ def run_inproc(ctx, objdir):
         ops, res = legal[i]
         ctx.violation("C11 violated in-process: after non-local control flow a return (or the second return of "
                       "setjmp, or the unwinder's resume address) does not reach its real caller / the number of "
-                      "exit hooks differs from the number of hooked functions sharing the frame",
+                      "exit hooks differs from the number of hooked functions sharing the frame / an ENTRY record "
+                      "carries a depth other than the number of live traced functions",
                       {"mode": "inproc", "case": case_json(ops, res)}, True)
     mism = [("legal", i) for i in ev["mismatch_legal"]] + [("free", i) for i in ev["mismatch_free"]]
     if ev["flags_bad"]:
